@@ -66,7 +66,7 @@ func checkC12(c *Ctx) {
 				continue
 			}
 			wit, bad := w[root{Kind: rkParam, Idx: i}]
-			c.Check(!bad, "FX-C12-inputs", fname(f), "does not write "+p.Name(), "", "the caller's "+p.Name()+" slice may be written: "+fx.describe(root{Kind: rkParam, Idx: i}, wit), wit.Pos)
+			c.Check(!bad, "FX-C12-inputs", fname(f), "does not write "+pname(p), "", "the caller's "+pname(p)+" slice may be written: "+fx.describe(root{Kind: rkParam, Idx: i}, wit), wit.Pos)
 		}
 	}
 	if f := fnm["Sm4GCM"]; f != nil {
